@@ -27,7 +27,7 @@ const (
 func C01(p *ir.Program, r *report.R) {
 	c := C{p, r}
 	r.Floor = 60
-	r.Explain = "Decided: the per-validator voting discipline in consensus/state.go — (B1) one prevote / one precommit per round: who may call signAddVote/signVote/PrivValidator.SignVote and with which vote type, at most one sign call per path, the re-entry guard of every enter* function interpreted over all orderings of (height, round, step), each enter* function sets its own step; (B2) a non-nil precommit is dominated by a polka of this round for that block id; (B3) no prevote against the lock, lock writers and unlock guards; (B4) commit guarded by +2/3 precommits, matching part-set header and block hash; (B5) stale timeouts ignored. NOT decided: agreement across nodes and schedules (needs exploration of interleavings of several state machines — a different technique family), liveness, gossip."
+	r.Explain = "Decided: the per-validator voting discipline in consensus/state.go — (B1) one prevote / one precommit per round: who may call signAddVote/signVote/PrivValidator.SignVote and with which vote type, at most one sign call per path, the re-entry guard of every enter* function interpreted over all orderings of (height, round, step), each enter* function sets its own step; (B2) a non-nil precommit is dominated by a polka of this round for that block id; (B3) no prevote against the lock, lock writers and unlock guards; (B4) commit guarded by +2/3 precommits, matching part-set header and block hash; (B5) stale timeouts ignored. ADDED after seeded-change testing: Quorum-intersection premises: a block id becomes a vote set's +2/3 majority only when its tally crosses total*2/3+1, once, and HasTwoThirdsAny is the strict two-thirds form (shared with C03). NOT decided: agreement across nodes and schedules (needs exploration of interleavings of several state machines — a different technique family), liveness, gossip."
 	r.Trusted = []string{"go/types + go/ssa (x/tools v0.29.0)", "VoteSet arithmetic (decided under C03)", "FilePV (decided under C04)"}
 	r.Assume = []string{"facts are branch conditions whose successor dominates the effect; a store to a compared field between guard and effect is not tracked except where stated", "cmn.Panic*/cmn.Exit never return"}
 
@@ -271,6 +271,9 @@ func C01(p *ir.Program, r *report.R) {
 		}, func(row ir.Row) string { return row.Outcome.Kind })
 		r.Extra["handleTimeout_table"] = rowsSample(rows, 18)
 	}
+
+	// ---- quorum intersection premises (decided in detail under C03) ---------------------------
+	quorumRules(c)
 }
 
 // c01EntryGuards interprets the first guard of each enter* function over
